@@ -109,7 +109,8 @@ def file_init_post(self, id, model, filename, priority, frequency, start, end, f
                    clear_records_on_write, old):
     return (self.filename == filename and self.filemode == filemode and self.write_count == write_count
             and self.last_write == 0 and self.clear_records_on_write == clear_records_on_write
-            and len(self.records) == 0 and self.priority == priority)
+            and len(self.records) == 0 and self.priority == priority and self.id == id and self.model is model
+            and self.frequency == frequency and self.start == start and self.end == end)
 
 
 contract('Collectors.FileCollector.__init__',
@@ -210,7 +211,8 @@ def agent_collector_init_post(self, model, agentFunc, compositeFunc, includeTims
                               end, old):
     return (same(self.agentFunc, agentFunc) and same(self.compositeFunc, compositeFunc)
             and self.includeTimestep == includeTimstep and self.id == id and self.priority == priority
-            and self.frequency == frequency and self.start == start and self.end == end and len(self.records) == 0)
+            and self.frequency == frequency and self.start == start and self.end == end and len(self.records) == 0
+            and self.model is model)
 
 
 contract('Collectors.AgentCollector.__init__',
